@@ -15,7 +15,8 @@ META = dict(
          "through all access paths, size(), empty(), returned iterators/values, free-list sizes, chunk count and available bytes after each step.",
     note="Bounded: sizes <= 4-6, 2-3 element values, 2-3 live blocks, 2-3 chunks. Capacity growth policy and the choice of the free block are "
          "compared too, but a difference there alone is a violation only if TLC finds a documented relation (ContainersObs) false on the "
-         "implementation's state. A moved-from bitdeque is treated as unspecified (only overwriting calls follow). prevector::operator< is "
+         "implementation's state. A moved-from bitdeque is treated as unspecified (only overwriting calls follow) but must be self-consistent "
+         "(size() == 0 <=> empty(), reusable): the stale padding of the defaulted move operations is a known finding. prevector::operator< is "
          "modelled as coded (shortlex), which is not std::vector's lexicographic order.",
     technique="TLA+ refinement-style specs (coded representation = plain sequence / block set) + TLC exhaustive state graphs; one implementation test per transition (graph replay)",
 )
@@ -105,6 +106,35 @@ def check_deviations(ctx, kind, name, res):
     ctx.extra["benign_policy_deviation_states"] = ctx.extra.get("benign_policy_deviation_states", 0) + len(keys) - bad
 
 
+MOVEDFROM_KEY = "bitdeque-movedfrom-inconsistent"
+MOVEDFROM_WHAT = ("moved-from bitdeque is self-inconsistent: empty() is true but size() is 2^64-3 (m_pad_begin/m_pad_end keep their old values "
+                  "while m_deque is emptied); a following push_back gives size 2^64-2")
+
+
+def report_findings(ctx, mode, args, res):
+    """`finding` lines of the adapter: a defect of the implementation outside what the model specifies (the state of a moved-from
+    bitdeque), reported under one stable key whatever state it was reached from (KNOWN-FINDING if listed in known_findings.jsonl)."""
+    fs = sorted((o for o in res["infos"] if o.get("kind") == "finding" and o.get("key") == MOVEDFROM_KEY), key=lambda o: o.get("index", 0))
+    if not fs:
+        return
+    f = fs[0]
+    case = json.loads(res["lines"][f["index"]])
+    case["steps"] = case["steps"][:f["step"] + 1]
+    ctx.violation(MOVEDFROM_KEY, MOVEDFROM_WHAT, dict(adapter="containers", mode=mode, args=list(args), case=case, mismatch=f))
+
+
+def replay(ctx, path):
+    """./check C61 --replay <file>: like the generic replay, but a `finding` line also counts as "still fails"."""
+    o = json.load(open(path))
+    binary = ctx.build_adapter(o["adapter"])
+    r = ctx.run_harness(binary, o["mode"], [json.dumps(o["case"])], args=o.get("args", ()), nproc=1, name="replay")
+    bad = r["mismatches"] + r["aborts"] + r["deviations"] + [x for x in r["infos"] if x.get("kind") == "finding"]
+    for m in bad:
+        print("REPLAY %s:" % m.get("kind"), json.dumps(m)[:2000])
+    print("REPLAY result: %s" % ("still fails" if bad else "passes"))
+    return 1 if bad else 0
+
+
 def run(ctx):
     binary = ctx.build_adapter("containers")
     plan = PLAN[ctx.tier]
@@ -160,6 +190,7 @@ def run(ctx):
                 if k in res["summary"]:
                     ctx.extra[k] = ctx.extra.get(k, 0) + int(res["summary"][k])
             vflib.report_mismatches(ctx, binary, mode, res, args=args, adapter="containers", what_prefix="%s: " % tag)
+            report_findings(ctx, mode, args, res)
             check_deviations(ctx, kind, tag, res)
         del g, tests
     for module, req in REQUIRED.items():
